@@ -90,10 +90,10 @@ def r3(ctx, prog):
         w2 = rl.precedes(f, lambda e: rl.is_call(f, e, "mi_block_set_next") and rl.field_is(f, f.nodes[e]["args"][2], "free"), a,
                          edge_ok=lambda lab, p, q: not any(free_null(e, pol) for e, pol in cfg.facts(lab)))
         ctx.check(R, w1 is None or w2 is None, f.where(a), "the previous free list is empty or was appended behind the tail (nothing is dropped)", key="C01.R3:collect:append", witness=w2)
-    if n < 2:
-        ctx.broke("C01.R3: fewer than 2 stores to page->free in _mi_page_free_collect")
+    if n < 1:
+        ctx.broke("C01.R3: no store to page->free in _mi_page_free_collect")
     shared.recount(ctx, R, prog)
-    ctx.floor(R, 9)
+    ctx.floor(R, 6)   # one store (merged branches) gives 6, two give 9
 
 
 def r4(ctx, prog):
